@@ -9,12 +9,17 @@ CHECK = {
                  "(4) a structured boundary family of large tables (65533..65544 registers, handles/addresses/lengths straddling 2^16; one of 65534); "
                  "(5) tables with one or two zero-sized areas (no address mapped by them) at every list position and admissible base, every window; "
                  "(6) the family of (1) and the tables of (2) once more at the top of the address space (last word of the table = 0xffffffff) x every "
-                 "(address,length) from one below the first area up to 0xffffffff with address+length <= 2^32",
+                 "(address,length) from one below the first area up to 0xffffffff with address+length <= 2^32; "
+                 "(7) access flags x accessor presence: tables of three adjacent areas in which the area at each position takes every combination of "
+                 "{memory-, callback-backed} x READABLE flag x read function present/absent x WRITEABLE flag x write function present/absent, at address 1 and "
+                 "ending at 0xffffffff, every window",
     "rule": "a case is (table or history, operation, window[, fault position]): block read compared word by word with the flat model on an exact-size "
             "heap buffer (under a fired read fault only memory safety, storage purity and 'a reported success holds the stored words' are demanded), "
             "or iteration run under every script (never stop; k-th call returns -1/+1; large tables: first/last call) and compared with the list of "
             "overlapping registers (a negative callback result must be answered with a code other than SUCCESS and the register's address: the statement fixes "
-            "the address, not the enum value); every case is non-trivial except those of a table / history / large table whose (re-)initialisation is "
+            "the address, not the enum value; SUCCESS is demanded of every other iteration that called a callback or whose range holds at least one mapped "
+            "address -- the answer of an iteration over an empty range or over unmapped addresses only, which visits nothing, is logged and not judged); "
+            "whether a table is initialised is taken from register_init's answer alone (no private flag is read); every case is non-trivial except those of a table / history / large table whose (re-)initialisation is "
             "refused: such a table is not judged (the statement is about initialised tables, what register_init accepts is C04's business), the refusal of a "
             "first initialisation is recorded as a cap (exhaustive=False, exit 0); the reference forms every "
             "exclusive end (address + length, register address + words, base + size) in 64 bits, so extents ending at 2^32 are represented exactly",
@@ -26,6 +31,14 @@ CHECK = {
                     "every single register (5 types x every placement x 6 constraint kinds), register pairs (quick: adjacent or one word apart), the curated lists, every "
                     "access-flag combination of the F2 part (readable / write-only areas in every position), plus the 320 tables of 3/4 adjacent areas ending at 0xffffffff; "
                     "windows and iteration ranges: every (address, length) over the addresses from one below the first area up to 0xffffffff with address + length <= 2^32",
+                    "'areas that are not readable' = areas that are not flagged REG_AF_READABLE or that name no read function (the library has nothing to call to "
+                    "learn a word of such an area, whatever its flags say): their words read zero and the read succeeds; for an area flagged readable without read "
+                    "function but with a mem pointer both zero and the word in mem are accepted (a library may treat mem != NULL as memory-backed, as register_mcopy "
+                    "does); areas flagged readable without read function occur only in family (7): 384 tables = 2 address positions x 3 list positions x 2 neighbour "
+                    "backings x 32 combinations; the class read-ok-flagged-readable-no-read-function is not required (a library refusing such an area at register_init "
+                    "ends these tables as init-refused with a cap; what register_init accepts is C04's business)",
+                    "the statement does not fix the return value of an iteration that visits nothing outside the table: when no callback was called and no address "
+                    "of the range is mapped any code is accepted",
                     "ranges that wrap around the 32-bit address space (address + length > 2^32) are outside the statement and not generated",
                     "re-initialisation histories keep the area array and replace the register list (unconstrained 16/32-bit registers; per area: none, "
                     "first word, every word, last word, 32-bit at the base); quick: pairs on layouts B, D, E with the three-filling menu",
@@ -46,7 +59,8 @@ CHECK = {
                                      "fault-first-chunk", "fault-later-chunk",
                                      "reinit-read-ok", "reinit-read-unmapped", "reinit-iter-none", "reinit-iter-some", "reinit-iter-all",
                                      "reinit-iter-from-emptied-area"]},
-        # top-* (tables at the top of the address space), big-* (large tables) and read-ok-across-empty-area (zero-sized areas) are not required: a library that refuses those tables at
+        # top-* (tables at the top of the address space), big-* (large tables), read-ok-across-empty-area (zero-sized areas) and
+        # read-ok-flagged-readable-no-read-function (accessor family) are not required: a library that refuses those tables at
         # register_init (narrower handle type; C04's business) ends them as *-init-refused with a cap, which is not a vacuity failure
     }],
 }
